@@ -52,6 +52,15 @@ def cases(ctx):
                 iv = ((hi << 64) | ((mid | low) & ((1 << 64) - 1))).to_bytes(16, "big")
                 nblocks = 4 if pos == 8 else 6
                 yield {"k": "rt", "mode": mode, "key": gen.rbytes(r, MODES[mode]).hex(), "iv": iv.hex(), "msg": gen.rbytes(r, 16 * nblocks - r.randrange(0, 16)).hex(), "carry": pos}
+    # CTR: the LAST block of the message uses low-64 counter value 2^64-1 exactly (the message itself never wraps)
+    for nblocks in (1, 2, 3, 5):
+        for mode in ("128ctr", "256ctr"):
+            for tail in (0, 1, 15):
+                k += 1
+                if k % N != S:
+                    continue
+                iv = ((r.getrandbits(64) << 64) | ((1 << 64) - nblocks)).to_bytes(16, "big")
+                yield {"k": "rt", "mode": mode, "key": gen.rbytes(r, MODES[mode]).hex(), "iv": iv.hex(), "msg": gen.rbytes(r, 16 * nblocks - tail).hex(), "carry": 9}
     # CBC rejection cases
     for mode in ("128cbc", "256cbc"):
         for L in (0, 1, 15, 16, 17, 31, 32, 47):
